@@ -11,6 +11,8 @@ CATS = ['Nan', 'Infinite', 'Zero', 'Subnormal', 'Normal']
 def lit_of(fn, o, depth=5):
     """integer literal an operand is a (chain of) copy of; None if it is anything else or ambiguous"""
     if o['k'] == 'const':
+        if 'int' in o and 'named' in o and not o.get('out_dir'):
+            return int(o['int'])          # a module-level constant of this crate with a literal value (not a generated one)
         return int(o['int']) if 'int' in o and 'named' not in o else None
     l = op_local(o)
     if l is None or depth <= 0:
@@ -273,7 +275,21 @@ def infinity_direction(rep, F, rule='R-TABLE'):
                 bad.append(o[:60])
             else:
                 good += 1
-            if minus is not None and (m.group(1) is not None) != minus:
+            neg_inf = m.group(1) is not None
+            o_ = TB.strip_refs(out)
+            while True:
+                # Some(x) / a single negation applied to the magnitude's result afterwards
+                if o_[0] == 'adt' and o_[2] == 'Some' and o_[3]:
+                    o_ = TB.strip_refs(o_[3][0])
+                elif o_[0] == 'un' and o_[1] == 'Neg':
+                    neg_inf = not neg_inf
+                    o_ = TB.strip_refs(o_[2])
+                elif o_[0] == 'call' and re.search(r'ops::Neg::neg$', TB._plain(o_[1])) and o_[2]:
+                    neg_inf = not neg_inf
+                    o_ = TB.strip_refs(o_[2][0])
+                else:
+                    break
+            if minus is not None and neg_inf != minus:
                 signbad.append(o[:60])
         key = fn.key + ':infinity-only-on-overflow'
         if signbad:
@@ -306,6 +322,7 @@ def run(ctx):
     rep.floor('float converters checked for the direction of infinity', n5, 1)
     from rules import floatpath
     n6 = floatpath.check(rep, F)
+    floatpath.no_float_casts(rep, F)
     rep.floor('to_f64 float-arithmetic rule', n6, 1)
     rep.floor('IEEE-754 field obligations', n4, 12)
     rep.extra['exhaustive_table'] = True
